@@ -18,6 +18,13 @@ C04_inf1 == [cyclic |-> 4, annTTL |-> FOREVER, collect |-> 1, subTTL |-> FOREVER
 \* both stacks have been up for long: session counters past their first wrap (reboot flag cleared), about to wrap again
 C04_wrap == [sess0 |-> <<FALSE, 65532>>] @@ C04_fin
 M_wrap == [bound |-> 16, needAlive |-> FALSE]
+\* the watcher holds TWO overlapping auto-subscriptions (filters F1: any instance, F2: instance 1) that resolve to the same
+\* concrete eventgroup of s1; the application may withdraw the first one (disturbance "unfind")
+C04_Match2 == [F1 |-> {"s1"}, F2 |-> {"s1"}, ALL |-> {"s1"}]
+C04_two == [watch0 |-> [L1 |-> {"ALL"}, LA |-> {"F1"}, LB |-> {"F2"}], wkeys0 |-> <<"F1", "F2">>, autosub |-> [LA |-> "G1", LB |-> "G1"],
+            findMatch |-> [F1 |-> {"s1"}, F2 |-> {"s1"}]] @@ C04_fin
+M_two == [bound |-> 16, needAlive |-> FALSE]
+TwoKinds == {"crash_srv", "crash_wat", "stop_srv", "stop_wat", "unfind"}
 \* infinite TTLs, offers only in the initial and repetition phases (no cyclic offers)
 C04_nocyc == [cyclic |-> 0, annTTL |-> FOREVER, collect |-> 0, reps |-> 2, base |-> 1, subTTL |-> FOREVER, refresh |-> 0] @@ C04_Base
 M_nocyc == [bound |-> 9, needAlive |-> TRUE]
@@ -28,6 +35,7 @@ M_inf  == [bound |-> 10, needAlive |-> TRUE]
 M_inf1 == [bound |-> 11, needAlive |-> TRUE]
 AllKinds == {"crash_srv", "crash_wat", "stop_srv", "stop_wat", "loss", "drop", "dup", "delay"}
 NodeKinds == {"crash_srv", "crash_wat", "stop_srv", "stop_wat"}
+TwoAllKinds == AllKinds \cup {"unfind"}
 \* infinite TTLs: crash of the offering stack is what known finding F1 is about (KNOWN_FINDINGS.jsonl); loss cannot heal
 InfKinds == {"crash_wat", "stop_srv", "stop_wat"}
 Graceful == {"stop_srv", "stop_wat"}
@@ -41,6 +49,7 @@ Sw_CancelCollectorsOnStop == [AllOff EXCEPT !.CancelCollectorsOnStop = TRUE]
 Sw_IgnoreWhenUnwatched == [AllOff EXCEPT !.IgnoreWhenUnwatched = TRUE]
 Sw_AsShipped == AsShipped
 Sw_SubStopForgetsList == [AllOff EXCEPT !.SubStopForgetsList = TRUE]
+Sw_UnsubRemovesAll == [AllOff EXCEPT !.UnsubRemovesAll = TRUE]
 Sw_QueueLatestWins == [AllOff EXCEPT !.QueueLatestWins = TRUE]
 
 =============================================================================
